@@ -143,8 +143,8 @@ def entry_case(rng, tmpdir, i):
     ragged = i % 2 == 1
     entry = ["constructor", "from_sequence", "pack_seq", "series_dtype", "pack_lists", "from_lists", "astype", "parquet",
              "constructor_chunked", "from_sequence_df", "take_fill", "reindex_fill", "setitem", "set_list_field",
-             "reduce_pack", "astype_nested"][(i // 2) % 16]
-    offered = make_ragged(rng, schema, rows, allow_null=entry not in ("from_sequence_df", "take_fill", "reindex_fill", "setitem", "set_list_field")) if ragged else rows
+             "reduce_pack", "astype_nested", "setitem_raw"][(i // 2) % 17]
+    offered = make_ragged(rng, schema, rows, allow_null=entry not in ("from_sequence_df", "take_fill", "reindex_fill", "setitem", "setitem_raw", "set_list_field")) if ragged else rows
     if offered is None:
         offered, ragged = rows, False
     names = [n for n, _ in schema]
@@ -152,7 +152,7 @@ def entry_case(rng, tmpdir, i):
     layout = rng.choice(["one", "split", "window"])
     if entry in ("take_fill", "reindex_fill"):
         return fill_entry_case(rng, entry, schema, rows, ragged)
-    if entry in ("setitem", "set_list_field"):
+    if entry in ("setitem", "setitem_raw", "set_list_field"):
         return assign_entry_case(rng, entry, schema, rows, ragged)
     if entry == "reduce_pack":
         return reduce_pack_case(rng, schema, rows, offered, ragged)
@@ -161,7 +161,7 @@ def entry_case(rng, tmpdir, i):
     # a special physical form for the constructor: every field a window of list arrays built over ONE shared offsets array,
     # the windows shifted against each other (field j starts at row j): rectangular iff neighbouring rows have equal lengths
     shared = None
-    if entry == "constructor" and (i // 32) % 2 == 1 and len(rows) >= 1:
+    if entry == "constructor" and (i // 34) % 2 == 1 and len(rows) >= 1:
         nrow = len(rows)
         k = len(schema)
         base_len = rng.randint(0, 3)
@@ -305,7 +305,7 @@ def astype_nested_case(rng, schema, rows, layout, i):
     st = gen.struct_type(schema)
     names = [n for n, _ in schema]
     holds = any(r is not None and any(len(v) for v in r.values()) for r in rows)
-    variant = ["widen", "reorder", "same", "widen_first"][(i // 32) % 4]
+    variant = ["widen", "reorder", "same", "widen_first"][(i // 34) % 4]
     if variant.startswith("widen") and not holds:
         variant = "same"
     extra = ("zz_extra", "double")
@@ -354,6 +354,9 @@ def assign_entry_case(rng, entry, schema, rows, ragged):
     with Born() as born:
         if entry == "setitem":
             c = ao.op_setitem(rng, inp, force_ragged=ragged)
+        elif entry == "setitem_raw":
+            # the value is a raw Arrow struct array / chunked array (what another column's storage looks like), ragged or not
+            c = ao.op_setitem(rng, inp, force_ragged=ragged, force_multi=not ragged, force_vkind="nea")
         else:
             c = ao.op_set_lists(rng, inp, rng.choice(["array", "with_list_field"]), malformed=ragged)
     c["stream"] = "entry"
@@ -467,6 +470,8 @@ def history_cases(rng, n_hist, max_len):
                 if nxt is None:
                     continue
                 break
+            if any(str(f.type.value_type) not in ao.TNAME for f in nxt.chunked_array.type):
+                break       # an element type outside the catalogue of the streams (Arrow's inference on the offered values): not carried on
             inp = inp_from_result(nxt, inp)
     return cases
 
